@@ -73,7 +73,19 @@ def build(case, rng):
     net = nets.Net(fields.TrigField(case["seed"], D, 1), eqt)
     ncomp = 1 if pk == "nonstatio" else 1 + case["seed"] % 2
     spec = eqs.ResidSpec(case["seed"], ncomp, 1, D)
-    dyn = spec.module(pk)
+    het = None
+    if case["seed"] % 3 == 0:
+        # refinement together with a heterogeneous equation parameter: candidates are ranked by the residual the loss
+        # minimises, i.e. with theta replaced by its function of the point
+        hb = np.random.default_rng([case["seed"], 77]).uniform(2.0, 4.0, D)
+        HB = jnp.asarray(hb)
+        hcore = lambda z: 0.8 + HB @ z
+        hj = {"ode": lambda t, u, params: hcore(jnp.reshape(t, (1,))), "statio": lambda x, u, params: hcore(x),
+              "nonstatio": lambda t, x, u, params: hcore(jnp.concatenate([t, x]))}[pk]
+        dyn = spec.module(pk, eq_params_heterogeneity={"theta": hj, "phi": None, "kappa": None})
+        het = hb
+    else:
+        dyn = spec.module(pk)
     params = Params(nn_params=net.nn_params(), eq_params={k: jnp.asarray(v) for k, v in EQ0.items()})
     rar = {"start_iter": case["start"], "update_every": case["every"]}
     gd = dict(key=case["seed"] % 9973, rar=rar)
@@ -93,7 +105,7 @@ def build(case, rng):
                   nt=case["nt"], bt=2, tmin=0.0, tmax=1.5, cartesian=True, n_start=case["n_start"], nt_start=case["nt_start"])
         loss = jinns.loss.LossPDENonStatio(u=net.pinn(), dynamic_loss=dyn, params=params)
     data = gens.make_generator(gd)
-    return dict(loss=loss, params=params, data=data, net=net, spec=spec, pk=pk, d=d, mins=mins, maxs=maxs,
+    return dict(loss=loss, params=params, data=data, net=net, spec=spec, pk=pk, d=d, mins=mins, maxs=maxs, het=het,
                 tmin=0.0, tmax=1.5)
 
 
@@ -252,4 +264,6 @@ def sq_residual(B, z):
     if B.get("sys") is not None:
         sp = B["sys"]
         return float(sum(np.sum(sp.specs[e].resid(sp.nets, z, EQ0) ** 2) for e in sp.eqnames))
+    if B.get("het") is not None:
+        return float(np.sum(B["spec"].resid(B["net"], z, EQ0, theta=0.8 + float(np.dot(B["het"], np.asarray(z, float)))) ** 2))
     return float(np.sum(B["spec"].resid(B["net"], z, EQ0) ** 2))
